@@ -1,1 +1,440 @@
 package xmpp
+
+// Client-side instruments: observed client construction, transport tap, goroutine probe, test PKI.
+
+import (
+	"crypto/ecdsa"
+	"crypto/elliptic"
+	crand "crypto/rand"
+	"crypto/tls"
+	"crypto/x509"
+	"crypto/x509/pkix"
+	"encoding/xml"
+	"fmt"
+	"io"
+	"math/big"
+	"net"
+	"regexp"
+	"runtime"
+	"strings"
+	"sync"
+	"sync/atomic"
+	"time"
+
+	"gosrc.io/xmpp/stanza"
+)
+
+// ---------------------------------------------------------------------------------------------
+// observed client
+
+type vfEvent struct {
+	State uint8  `json:"state"`
+	SMId  string `json:"smid,omitempty"`
+	Desc  string `json:"desc,omitempty"`
+	SErr  string `json:"streamerror,omitempty"`
+	Seq   int64  `json:"seq"`
+}
+
+type vfObs struct {
+	mu       sync.Mutex
+	events   []vfEvent
+	errors   []string
+	errSeq   []int64
+	handled  []string // ids of routed stanzas, in handler-entry order
+	kinds    []string
+	handlerDelay func(id string)
+}
+
+func (o *vfObs) onEvent(e Event) error {
+	o.mu.Lock()
+	o.events = append(o.events, vfEvent{State: e.State.state, SMId: e.SMState.Id, Desc: e.Description, SErr: e.StreamError, Seq: vfTick()})
+	o.mu.Unlock()
+	return nil
+}
+
+func (o *vfObs) onError(err error) {
+	o.mu.Lock()
+	o.errors = append(o.errors, err.Error())
+	o.errSeq = append(o.errSeq, vfTick())
+	o.mu.Unlock()
+}
+
+func (o *vfObs) Events() []vfEvent {
+	o.mu.Lock()
+	defer o.mu.Unlock()
+	return append([]vfEvent(nil), o.events...)
+}
+
+func (o *vfObs) Errors() []string {
+	o.mu.Lock()
+	defer o.mu.Unlock()
+	return append([]string(nil), o.errors...)
+}
+
+func (o *vfObs) Handled() []string {
+	o.mu.Lock()
+	defer o.mu.Unlock()
+	return append([]string(nil), o.handled...)
+}
+
+func (o *vfObs) CountState(st uint8) int {
+	n := 0
+	for _, e := range o.Events() {
+		if e.State == st {
+			n++
+		}
+	}
+	return n
+}
+
+func vfPacketId(p stanza.Packet) (kind, id string) {
+	switch v := p.(type) {
+	case stanza.Message:
+		return "message", v.Id
+	case stanza.Presence:
+		return "presence", v.Id
+	case *stanza.IQ:
+		return "iq", v.Id
+	}
+	return p.Name(), ""
+}
+
+// catchAll registers a route without matchers that records every routed packet.
+func (o *vfObs) catchAll(r *Router) {
+	r.NewRoute().HandlerFunc(func(s Sender, p stanza.Packet) {
+		kind, id := vfPacketId(p)
+		o.mu.Lock()
+		o.handled = append(o.handled, id)
+		o.kinds = append(o.kinds, kind)
+		d := o.handlerDelay
+		o.mu.Unlock()
+		if d != nil {
+			d(id)
+		}
+	})
+}
+
+type vfClientOpt struct {
+	Addr      string
+	Jid       string
+	Password  string
+	Insecure  bool
+	SM        bool
+	SMResume  bool
+	TLSConfig *tls.Config
+	Keepalive time.Duration
+	Timeout   int
+	Domain    string
+	Cred      *Credential
+}
+
+func vfNewClient(o vfClientOpt, r *Router) (*Client, *vfObs, error) {
+	if o.Jid == "" {
+		o.Jid = "test@localhost/vf"
+	}
+	if o.Password == "" {
+		o.Password = "secret"
+	}
+	if o.Timeout == 0 {
+		o.Timeout = 1
+	}
+	if o.Keepalive == 0 {
+		o.Keepalive = time.Hour
+	}
+	cred := Password(o.Password)
+	if o.Cred != nil {
+		cred = *o.Cred
+	}
+	cfg := &Config{
+		TransportConfiguration: TransportConfiguration{Address: o.Addr, TLSConfig: o.TLSConfig, Domain: o.Domain},
+		Jid:                    o.Jid,
+		Credential:             cred,
+		Insecure:               o.Insecure,
+		ConnectTimeout:         o.Timeout,
+		KeepaliveInterval:      o.Keepalive,
+		StreamManagementEnable: o.SM,
+		streamManagementResume: o.SMResume,
+	}
+	obs := &vfObs{}
+	if r == nil {
+		r = NewRouter()
+	}
+	c, err := NewClient(cfg, r, obs.onError)
+	if err != nil {
+		return nil, obs, err
+	}
+	c.SetHandler(obs.onEvent)
+	return c, obs, nil
+}
+
+// ---------------------------------------------------------------------------------------------
+// transport tap: wraps the client's Transport at the public interface
+
+type vfTap struct {
+	inner Transport
+	mu    sync.Mutex
+	// hooks (may be nil); called outside the mutex
+	BeforeWrite func(p []byte) error // returning an error fails the write without touching the socket
+	AfterWrite  func(p []byte, n int, err error)
+	BeforePing  func() error
+	OnClose     func()
+	writes      int64
+	pings       int64
+	closes      int64
+}
+
+func (t *vfTap) Connect() (string, error)      { return t.inner.Connect() }
+func (t *vfTap) DoesStartTLS() bool             { return t.inner.DoesStartTLS() }
+func (t *vfTap) StartTLS() error                { return t.inner.StartTLS() }
+func (t *vfTap) LogTraffic(w io.Writer)         { t.inner.LogTraffic(w) }
+func (t *vfTap) StartStream() (string, error)   { return t.inner.StartStream() }
+func (t *vfTap) GetDecoder() *xml.Decoder       { return t.inner.GetDecoder() }
+func (t *vfTap) IsSecure() bool                 { return t.inner.IsSecure() }
+func (t *vfTap) Read(p []byte) (int, error)     { return t.inner.Read(p) }
+func (t *vfTap) ReceivedStreamClose()           { t.inner.ReceivedStreamClose() }
+func (t *vfTap) Ping() error {
+	atomic.AddInt64(&t.pings, 1)
+	if t.BeforePing != nil {
+		if err := t.BeforePing(); err != nil {
+			return err
+		}
+	}
+	return t.inner.Ping()
+}
+func (t *vfTap) Write(p []byte) (int, error) {
+	atomic.AddInt64(&t.writes, 1)
+	if t.BeforeWrite != nil {
+		if err := t.BeforeWrite(p); err != nil {
+			return 0, err
+		}
+	}
+	n, err := t.inner.Write(p)
+	if t.AfterWrite != nil {
+		t.AfterWrite(p, n, err)
+	}
+	return n, err
+}
+func (t *vfTap) Close() error {
+	atomic.AddInt64(&t.closes, 1)
+	if t.OnClose != nil {
+		t.OnClose()
+	}
+	return t.inner.Close()
+}
+
+// vfInstallTap must be called before Connect (no library goroutine exists yet).
+func vfInstallTap(c *Client) *vfTap {
+	t := &vfTap{inner: c.transport}
+	c.transport = t
+	return t
+}
+
+// ---------------------------------------------------------------------------------------------
+// goroutine probe (DESIGN 3.3)
+
+type vfGoroutine struct {
+	ID     string
+	State  string
+	Frames []string
+	Text   string
+}
+
+var vfGoHdr = regexp.MustCompile(`^goroutine (\d+) \[([^\]]+)\]:`)
+
+func vfGoroutines() []vfGoroutine {
+	buf := make([]byte, 1<<20)
+	for {
+		n := runtime.Stack(buf, true)
+		if n < len(buf) {
+			buf = buf[:n]
+			break
+		}
+		buf = make([]byte, 2*len(buf))
+	}
+	var out []vfGoroutine
+	for _, blk := range strings.Split(string(buf), "\n\n") {
+		lines := strings.Split(blk, "\n")
+		m := vfGoHdr.FindStringSubmatch(lines[0])
+		if m == nil {
+			continue
+		}
+		g := vfGoroutine{ID: m[1], State: m[2], Text: blk}
+		for _, l := range lines[1:] {
+			if !strings.HasPrefix(l, "\t") && l != "" {
+				fn := l
+				if i := strings.LastIndex(fn, "("); i > 0 {
+					fn = fn[:i]
+				}
+				g.Frames = append(g.Frames, strings.TrimPrefix(fn, "created by "))
+			}
+		}
+		out = append(out, g)
+	}
+	return out
+}
+
+// vfLibFrame reports whether a frame is non-test go-xmpp code.
+func vfLibFrame(f string) bool {
+	if !strings.HasPrefix(f, "gosrc.io/xmpp.") && !strings.HasPrefix(f, "gosrc.io/xmpp/stanza.") {
+		return false
+	}
+	rest := f[strings.LastIndex(f, "/")+1:]
+	if strings.Contains(rest, ".vf") || strings.Contains(rest, ".Vf") || strings.Contains(rest, "TestVf") || strings.Contains(rest, "(*vf") {
+		return false
+	}
+	return true
+}
+
+func vfHasFrame(g vfGoroutine, sub string) bool {
+	for _, f := range g.Frames {
+		if strings.Contains(f, sub) {
+			return true
+		}
+	}
+	return false
+}
+
+// vfLibGoroutines returns goroutines executing (or created by) library code whose stack contains marker (or any if marker == "").
+func vfLibGoroutines(marker string) []vfGoroutine {
+	var out []vfGoroutine
+	for _, g := range vfGoroutines() {
+		lib := false
+		for _, f := range g.Frames {
+			if vfLibFrame(f) {
+				lib = true
+			}
+		}
+		if lib && (marker == "" || strings.Contains(g.Text, marker)) {
+			out = append(out, g)
+		}
+	}
+	return out
+}
+
+// vfInRoute counts goroutines delivering a packet to the routes (acknowledgement handling inside
+// SendMissingStz is not stanza delivery and is excluded).
+func vfInRoute() int {
+	n := 0
+	for _, g := range vfGoroutines() {
+		if vfHasFrame(g, "gosrc.io/xmpp.(*Router).route") && !vfHasFrame(g, "gosrc.io/xmpp.SendMissingStz") {
+			n++
+		}
+	}
+	return n
+}
+
+func vfCountFrames(sub string) int {
+	n := 0
+	for _, g := range vfGoroutines() {
+		if vfHasFrame(g, sub) {
+			n++
+		}
+	}
+	return n
+}
+
+// vfWaitUntil polls cond until it holds or the watchdog expires (→ false: inconclusive, never a verdict by itself).
+func vfWaitUntil(max time.Duration, cond func() bool) bool {
+	deadline := time.Now().Add(max)
+	sleep := 200 * time.Microsecond
+	for {
+		if cond() {
+			return true
+		}
+		if time.Now().After(deadline) {
+			return false
+		}
+		time.Sleep(sleep)
+		if sleep < 20*time.Millisecond {
+			sleep *= 2
+		}
+	}
+}
+
+// ---------------------------------------------------------------------------------------------
+// test PKI (in memory)
+
+type vfPKI struct {
+	CA        *x509.Certificate
+	caKey     *ecdsa.PrivateKey
+	Pool      *x509.CertPool
+	OtherCA   *x509.Certificate
+	otherKey  *ecdsa.PrivateKey
+	certs     map[string]tls.Certificate
+	mu        sync.Mutex
+}
+
+var vfPKIOnce sync.Once
+var vfThePKI *vfPKI
+
+func vfGetPKI() *vfPKI {
+	vfPKIOnce.Do(func() {
+		p := &vfPKI{certs: map[string]tls.Certificate{}}
+		p.CA, p.caKey = vfMakeCA("vf test CA")
+		p.OtherCA, p.otherKey = vfMakeCA("vf untrusted CA")
+		p.Pool = x509.NewCertPool()
+		p.Pool.AddCert(p.CA)
+		vfThePKI = p
+	})
+	return vfThePKI
+}
+
+func vfMakeCA(cn string) (*x509.Certificate, *ecdsa.PrivateKey) {
+	key, _ := ecdsa.GenerateKey(elliptic.P256(), crand.Reader)
+	tpl := &x509.Certificate{
+		SerialNumber: big.NewInt(time.Now().UnixNano()), Subject: pkix.Name{CommonName: cn},
+		NotBefore: time.Now().Add(-time.Hour), NotAfter: time.Now().Add(24 * time.Hour),
+		IsCA: true, KeyUsage: x509.KeyUsageCertSign | x509.KeyUsageDigitalSignature, BasicConstraintsValid: true,
+	}
+	der, err := x509.CreateCertificate(crand.Reader, tpl, tpl, &key.PublicKey, key)
+	if err != nil {
+		panic(err)
+	}
+	c, _ := x509.ParseCertificate(der)
+	return c, key
+}
+
+// Cert returns a server certificate: kind ∈ valid | expired | untrusted | selfsigned, for the given DNS names.
+func (p *vfPKI) Cert(kind string, names ...string) tls.Certificate {
+	k := kind + "|" + strings.Join(names, ",")
+	p.mu.Lock()
+	defer p.mu.Unlock()
+	if c, ok := p.certs[k]; ok {
+		return c
+	}
+	key, _ := ecdsa.GenerateKey(elliptic.P256(), crand.Reader)
+	tpl := &x509.Certificate{
+		SerialNumber: big.NewInt(time.Now().UnixNano()), Subject: pkix.Name{CommonName: names[0]},
+		NotBefore: time.Now().Add(-time.Hour), NotAfter: time.Now().Add(12 * time.Hour),
+		KeyUsage: x509.KeyUsageDigitalSignature, ExtKeyUsage: []x509.ExtKeyUsage{x509.ExtKeyUsageServerAuth},
+	}
+	for _, n := range names {
+		if ip := net.ParseIP(n); ip != nil {
+			tpl.IPAddresses = append(tpl.IPAddresses, ip)
+		} else {
+			tpl.DNSNames = append(tpl.DNSNames, n)
+		}
+	}
+	parent, pkey := p.CA, p.caKey
+	switch kind {
+	case "expired":
+		tpl.NotBefore, tpl.NotAfter = time.Now().Add(-48*time.Hour), time.Now().Add(-24*time.Hour)
+	case "untrusted":
+		parent, pkey = p.OtherCA, p.otherKey
+	case "selfsigned":
+		parent, pkey = tpl, key
+	}
+	der, err := x509.CreateCertificate(crand.Reader, tpl, parent, &key.PublicKey, pkey)
+	if err != nil {
+		panic(err)
+	}
+	c := tls.Certificate{Certificate: [][]byte{der}, PrivateKey: key}
+	p.certs[k] = c
+	return c
+}
+
+func (p *vfPKI) ServerConfig(kind string, names ...string) *tls.Config {
+	return &tls.Config{Certificates: []tls.Certificate{p.Cert(kind, names...)}}
+}
+
+func vfSprintf(f string, a ...interface{}) string { return fmt.Sprintf(f, a...) }
